@@ -937,7 +937,7 @@ fn verif_loom_driver() {
             // anything unrecognised (e.g. loom tripping over a poisoned, i.e. freed, control block) is a
             // lifetime defect
             let head: String = msg.chars().take_while(|c| *c != ':').collect();
-            let prop: String = if head.starts_with('C') && head.len() <= 24 && head.split(',').all(|x| x.len() >= 3 && x.starts_with('C')) {
+            let prop: String = if head.starts_with('C') && head.len() <= 24 && head.split(',').all(|x| x.len() == 3 && x.starts_with('C') && x[1..].chars().all(|c| c.is_ascii_digit())) {
                 head
             } else if msg.contains("Causality violation") {
                 "C06,C05".to_string()
